@@ -71,28 +71,43 @@ Definition sequence_pattern_str (c : cond) (o : obj) : bool :=
   has_seqis_false c && sub_art (class_of o) CStr.
 
 (* ---- clause assert_promotion --------------------------------------------
-   ConstraintType.is_instance / is_value (assert_is_instance, assert_is) compare classes with the
-   real issubclass / isinstance, without the int -> float -> complex promotion that membership in
-   a declared type has: x: float, assert_is_instance(x, int) leaves Never although 1 passes *)
-Fixpoint has_assert (c : cond) : bool :=
-  match c with
-  | CAssertInst _ | CAssertIs _ => true
-  | CNot c => has_assert c
-  | CPAnd a b => has_assert a || has_assert b
-  | CAnd a b => has_assert a || has_assert b
-  | COr a b => has_assert a || has_assert b
-  | _ => false
-  end.
+   ConstraintType.is_instance applied negatively drops a declared class that is a subclass of
+   the tested one by the real issubclass, without regard to the int -> float -> complex
+   promotion that membership in a declared type has: x: float with "not an instance of float"
+   leaves Never although 1 (a member of float, not an instance) passes.  (The positive branch
+   was repaired: x: float, assert_is_instance(x, int) now gives int.)  Only reachable through
+   constrain_value: assert statements use the positive branch only. *)
 Definition numeric_cls (k : cls) : bool := sub k CInt || sub k CFloat.
 Definition numeric_like (o : obj) : bool :=
   match o with OClass k => numeric_cls k | _ => numeric_cls (class_of o) end.
-Definition assert_promotion (c : cond) (o : obj) : bool := has_assert c && numeric_like o.
+Fixpoint assert_promotion (c : cond) (o : obj) : bool :=
+  match c with
+  | CAssertInst c1 => negb (isinst o c1) && numeric_like o
+  | CNot c => assert_promotion c o
+  | CPAnd a b => assert_promotion a o || assert_promotion b o
+  | CAnd a b => assert_promotion a o || assert_promotion b o
+  | COr a b => assert_promotion a o || assert_promotion b o
+  | _ => false
+  end.
 
-(* patterns of TypeIs: the two patma pattern values are built only by the sequence / mapping
-   leaves; list[...] / dict[...] patterns are outside the fragment (two list types with different
-   arguments share the empty list but is_overlapping finds them disjoint) *)
-Definition pat_ok (p : bval) : bool :=
-  match p with VGen (GList _) | VGen (GDict _ _) => false | _ => true end.
+(* ---- clause generic_pattern_negative ------------------------------------
+   TypeIs[list[int]] in the negative branch drops every list type that is assignable to list[int],
+   including list[Any] and the bare list (assignable only because the argument is unknown): a list
+   that is not a list[int] takes that branch and is lost.  (The positive branch is fine since the
+   C02 repair of _deliteral: list[int] and list[str] overlap in the empty list.) *)
+Definition is_generic_pat (p : bval) : bool :=
+  match p with VGen (GList _) | VGen (GDict _ _) => true | _ => false end.
+Definition is_collection (o : obj) : bool :=
+  match o with OList _ | ODict _ => true | _ => false end.
+Fixpoint generic_pattern_negative (c : cond) (o : obj) : bool :=
+  match c with
+  | CTypeIs t => existsb (fun p => is_generic_pat p && negb (member_b o p)) t && is_collection o
+  | CNot c => generic_pattern_negative c o
+  | CPAnd a b => generic_pattern_negative a o || generic_pattern_negative b o
+  | CAnd a b => generic_pattern_negative a o || generic_pattern_negative b o
+  | COr a b => generic_pattern_negative a o || generic_pattern_negative b o
+  | _ => false
+  end.
 
 (* ---- hypotheses that come from the property's quantifier ---------------- *)
 
@@ -118,7 +133,7 @@ Fixpoint cond_ok (c : cond) (o : obj) : bool :=
   | CIsInstance cs => negb (match cs with [] => true | _ => false end)
   | CIsSubclass cs => negb (match cs with [] => true | _ => false end)
   | CTypeIs t => negb (match t with [] => true | _ => false end)
-                 && forallb (fun p => match p with VTuple _ => false | VAny => false | VGen _ => false | _ => true end) t
+                 && forallb (fun p => match p with VTuple _ => false | VAny => false | VGen GSeqPat => false | VGen GMapPat => false | _ => true end) t
   | CNot c => cond_ok c o
   | CPAnd a b => cond_ok a o && cond_ok b o
   | CAnd a b => cond_ok a o && cond_ok b o
@@ -130,7 +145,8 @@ Fixpoint cond_ok (c : cond) (o : obj) : bool :=
 Definition c02_guard (c : cond) (o : obj) : bool :=
   wf_obj o && cond_ok c o
   && negb (multiple_inheritance o) && negb (subclass_bool o) && negb (promotion_negative c o)
-  && negb (enum_class_object o) && negb (sequence_pattern_str c o) && negb (assert_promotion c o).
+  && negb (enum_class_object o) && negb (sequence_pattern_str c o) && negb (assert_promotion c o)
+  && negb (generic_pattern_negative c o).
 
 (* ---- membership modulo the MinLen/MaxLen annotations (for "never widens") ---- *)
 Definition bmember_s (o : obj) (s : sval) : bool := member_b o (sbase s).
